@@ -433,3 +433,5 @@ func (h *vHist) refBestWork(r *Repository) *big.Int {
 	}
 	return best
 }
+
+func context_bg() context.Context { return context.Background() }
